@@ -549,26 +549,41 @@ def B5(ctx):
     stores = [b for (b, t, c) in prog.sites(inst) if prog.callee_key(c) == "model::checkpoint::store_execution_path"]
     dom = body.dominators()
     found = {}
-    for b in range(body.n):
-        t = body.term(b)
-        if t["k"] != "switch":
-            continue
-        e = body.expr_of_operand(t["op"])
+
+    def classify(e):
+        """'max_permutations' / 'max_duration' if e is the comparison of the iteration count / elapsed time with that limit."""
         if e[0] == "binop" and e[1] in ("Ge", "Lt", "Gt", "Le"):
             txt = canon(e)
-            which = None
-            if "max_permutations" in txt:
-                which = "max_permutations"
-            elif "max_duration" in txt and "elapsed" in txt:
-                which = "max_duration"
-            if which:
-                found[which] = (b, e, t)
-        elif e[0] == "call" and (e[1].endswith("PartialOrd::ge") or e[1].endswith("PartialOrd::lt")):
+        elif e[0] == "call" and e[1].split("::")[-1] in ("ge", "lt", "gt", "le") and "PartialOrd" in e[1]:
             txt = canon(e)
-            if "max_duration" in txt and "elapsed" in txt:
-                found["max_duration"] = (b, e, t)
-            if "max_permutations" in txt:
-                found["max_permutations"] = (b, e, t)
+        else:
+            return None
+        if "max_permutations" in txt:
+            return "max_permutations"
+        if "max_duration" in txt and "elapsed" in txt:
+            return "max_duration"
+        return None
+    # the comparison may feed the switch directly, or be computed into a temporary first (closure of a desugared combinator,
+    # inlined helper): look at switch operands, assigned values and call results
+    for b in range(body.n):
+        if body.blocks[b]["cleanup"]:
+            continue
+        cands = []
+        t = body.term(b)
+        if t["k"] == "switch":
+            cands.append(body.expr_of_operand(t["op"]))
+        if t["k"] == "call":
+            cands.append(("call", callee_path(t), [body.expr_of_operand(a) for a in t["args"]], b))
+        for st in body.blocks[b]["stmts"]:
+            if st["k"] == "=" and st["rv"]["k"] == "binop":
+                cands.append(body.expr_of_rvalue(st["rv"]))
+        for e in cands:
+            pol = True
+            while e[0] == "unop" and e[1] == "Not":
+                e = e[2]
+            w = classify(e)
+            if w and w not in found:
+                found[w] = (b, e, t)
     for which in ("max_permutations", "max_duration"):
         if which not in found:
             ctx.bad("B5", CHECK, "the %s limit is no longer tested" % which, fn.loc(), detail=which + "-missing")
@@ -578,12 +593,24 @@ def B5(ctx):
         on_boundary = any(ge[0] == "binop" and ge[1] == "Eq" and "checkpoint_interval" in canon(ge) and pol is True for (ge, pol, v, sb) in atoms)
         is_ge = (e[0] == "binop" and e[1] == "Ge") or (e[0] == "call" and e[1].endswith("::ge"))
         lhs_ok = (canon(e[2]) in ("i", "phi(i)") if which == "max_permutations" and e[0] == "binop" else True)
-        # the true edge leads to a return without panic and without another run
-        tgt = switch_targets_for(t, True)
-        r = set()
-        for x in tgt:
-            # path-sensitive in constant flags (`return true` of an inlined limit helper joins before the caller tests it)
-            r |= PEval(body).run(start=x)[0]
+        # when the comparison holds, control reaches a return without panic and without another run (path-sensitive in the
+        # boolean temporaries the result travels through)
+        want_canon = canon(e)
+        truth = e[1] in ("Ge", "Gt") if e[0] == "binop" else e[1].split("::")[-1] in ("ge", "gt")
+
+        def a_lim(body_, b_, t_, ex, want_canon=want_canon, truth=truth):
+            pol = True
+            while ex[0] == "unop" and ex[1] == "Not":
+                ex = ex[2]
+                pol = not pol
+            if canon(ex) == want_canon:
+                return switch_targets_for(t_, truth == pol)
+            return None
+
+        def value_of(body_, b_, ex, want_canon=want_canon, truth=truth):
+            return truth if canon(ex) == want_canon else None
+        a_lim.value_of = value_of
+        r = PEval(body, a_lim).run(start=b)[0]
         runs = {bb for (bb, tt, c) in prog.sites(inst) if prog.callee_key(c) == "rt::scheduler::Scheduler::run"}
         plain = any(body.term(x)["k"] == "return" for x in r) and not (r & runs) and \
             not any(body.term(x)["k"] == "call" and callee_path(body.term(x)).startswith("core::panicking") for x in r)
@@ -591,6 +618,48 @@ def B5(ctx):
         # the store (if any file) is on every path from the boundary test to the limit test
         # the limit is examined after the checkpoint of this boundary has been written
         st_ok = bool(stores) and all(b in body.reachable(s_) for s_ in stores)
+        # each limit is effective on its own: on the checkpoint boundary, with this limit set and reached, the run ends whatever
+        # the other limit is (unset, or set and not reached)
+        other = "max_duration" if which == "max_permutations" else "max_permutations"
+        bnd = [sb for (ge, pol, v, sb) in atoms if ge[0] == "binop" and ge[1] == "Eq" and "checkpoint_interval" in canon(ge) and pol is True and sb is not None]
+        independent = True
+        if bnd:
+            start_b = list(switch_targets_for(body.term(bnd[0]), True))[0]
+            for other_set in (False, True):
+                oc = found.get(other)
+                o_canon = canon(oc[1]) if oc else None
+                o_truth = (oc[1][1] in ("Ge", "Gt") if oc[1][0] == "binop" else oc[1][1].split("::")[-1] in ("ge", "gt")) if oc else None
+
+                def a2(body_, b_, t_, ex, other_set=other_set, o_canon=o_canon, o_truth=o_truth):
+                    r0 = a_lim(body_, b_, t_, ex)
+                    if r0 is not None:
+                        return r0
+                    pol = True
+                    while ex[0] == "unop" and ex[1] == "Not":
+                        ex = ex[2]
+                        pol = not pol
+                    if o_canon is not None and canon(ex) == o_canon:
+                        return switch_targets_for(t_, (not o_truth) == pol)
+                    for (fld, st_) in ((which, True), (other, other_set)):
+                        r1 = assume_option_field("model::Builder", fld, st_)(body_, b_, t_, ex if pol else ("unop", "Not", ex))
+                        if r1 is not None:
+                            return r1
+                    return None
+
+                def v2(body_, b_, ex, o_canon=o_canon, o_truth=o_truth):
+                    r0 = value_of(body_, b_, ex)
+                    if r0 is not None:
+                        return r0
+                    if o_canon is not None and canon(ex) == o_canon:
+                        return not o_truth
+                    return None
+                a2.value_of = v2
+                r2 = PEval(body, a2).run(start=start_b)[0]
+                if (r2 & runs) or not any(body.term(x)["k"] == "return" for x in r2):
+                    independent = False
+        if not independent:
+            ctx.bad("B5", CHECK, "the %s limit does not end the run in every configuration of the other limit (%s unset / set and not "
+                    "reached): one limit shadows the other" % (which, other), site_str(prog, CHECK, b), detail=which + "-shadowed")
         if on_boundary and is_ge and plain and lhs_ok and st_ok:
             ctx.ok("B5", CHECK + ":" + which, "tested with >= on the checkpoint boundary after the store; plain return", [site_str(prog, CHECK, b)])
         else:
